@@ -1,6 +1,6 @@
 (* Extraction of the editor model (group ed). ExtrOcamlBasic only. *)
 From Coq Require Import Extraction ExtrOcamlBasic.
-From LC Require Import Base.Lib Model.Syllable Model.Composition Model.Conversion Model.Engine Model.Editor Model.EdInst Model.CapiKeys.
+From LC Require Import Base.Lib Model.Syllable Model.Composition Model.Conversion Model.Engine Model.Editor Model.EdInst Model.CapiKeys Model.CapiConfig.
 Extraction Language OCaml.
 Set Extraction KeepSingleton.
 Separate Extraction
@@ -14,6 +14,6 @@ Separate Extraction
   EdInst.ml_candidates EdInst.ml_total_page EdInst.ml_syl_read EdInst.ml_layout EdInst.ml_valid_conv EdInst.ml_engine_alts
   CapiKeys.handle_code CapiKeys.handle_default CapiKeys.handle_ctrlnum CapiKeys.handle_numlock CapiKeys.set_kbtype
   CapiKeys.set_selkey CapiKeys.cand_choose CapiKeys.cand_open CapiKeys.cand_close CapiKeys.commit_preedit
-  CapiKeys.clean_preedit CapiKeys.clean_bopomofo CapiKeys.reset CapiKeys.default_sel_keys CapiKeys.c_flags CapiKeys.c_commit_string CapiKeys.c_aux_string CapiKeys.c_cand_enumerate
+  CapiKeys.clean_preedit CapiKeys.clean_bopomofo CapiKeys.reset CapiKeys.default_sel_keys CapiConfig.config_set_int_c CapiConfig.config_get_int_c CapiConfig.userphrase_add CapiConfig.userphrase_remove CapiConfig.userphrase_lookup CapiKeys.c_flags CapiKeys.c_commit_string CapiKeys.c_aux_string CapiKeys.c_cand_enumerate
   Editor.display Editor.conversion Editor.ed_page_no Conversion.tiling_ok Conversion.display_of
   Composition.ce_len Syllable.spell.
